@@ -134,6 +134,93 @@ fn gen_op(ctx: &mut Ctx, cfg: &Cfg) -> Op {
     }
 }
 
+/// the same identifier in another form: plain <-> node-local, or node-local with other preserved bytes (`==`, `Hash` and `Ord`
+/// ignore the form, the encoder does not)
+fn reform_pid(ctx: &mut Ctx, p: &ExternalPid) -> ExternalPid {
+    let plain = ExternalPid::new(p.node.clone(), p.id, p.serial, p.creation);
+    if p.local_ext_bytes.is_some() && ctx.rng.chance(1, 2) {
+        return plain;
+    }
+    let enc = erltf::encode(&OwnedTerm::Pid(plain.clone())).unwrap();
+    let mut b = ctx.rng.bytes(8);
+    b.extend_from_slice(&enc[1..]);
+    ExternalPid::with_local_ext_bytes(plain.node, plain.id, plain.serial, plain.creation, b)
+}
+
+fn reform_ref(ctx: &mut Ctx, r: &ExternalReference) -> ExternalReference {
+    let plain = ExternalReference::new(r.node.clone(), r.creation, r.ids.clone());
+    if r.local_ext_bytes.is_some() && ctx.rng.chance(1, 2) {
+        return plain;
+    }
+    let enc = erltf::encode(&OwnedTerm::Reference(plain.clone())).unwrap();
+    let mut b = ctx.rng.bytes(8);
+    b.extend_from_slice(&enc[1..]);
+    ExternalReference::with_local_ext_bytes(plain.node, plain.creation, plain.ids, b)
+}
+
+/// An operation of the same kind as `prev` whose arguments are equal to `prev`'s as far as `==` can tell (identifiers in
+/// another form), or identical, or differing in one argument only: whatever the connection remembers from one operation
+/// must not leak into the next.
+fn variant_of(ctx: &mut Ctx, prev: &Op, cfg: &Cfg) -> Op {
+    ctx.count("op_variant_of_previous");
+    let mut pid = |ctx: &mut Ctx, p: &ExternalPid| -> ExternalPid {
+        match ctx.rng.below(4) {
+            0 => p.clone(),
+            1 => gen_pid(&mut ctx.rng, true),
+            _ => {
+                ctx.count("op_variant_reformed_identifier");
+                reform_pid(ctx, p)
+            }
+        }
+    };
+    match prev {
+        Op::Send(f, t, m) => {
+            let (f2, t2) = (pid(ctx, f), pid(ctx, t));
+            Op::Send(f2, t2, if ctx.rng.chance(1, 2) { m.clone() } else { gen_payload(ctx, &Cfg { huge: false, ..cfg.clone() }) })
+        }
+        Op::RegSend(f, n, m) => {
+            let f2 = pid(ctx, f);
+            Op::RegSend(f2, n.clone(), if ctx.rng.chance(1, 2) { m.clone() } else { gen_payload(ctx, &Cfg { huge: false, ..cfg.clone() }) })
+        }
+        Op::Link(f, t) => { let (f2, t2) = (pid(ctx, f), pid(ctx, t)); Op::Link(f2, t2) }
+        Op::Unlink(f, t, i) => { let (f2, t2) = (pid(ctx, f), pid(ctx, t)); Op::Unlink(f2, t2, if ctx.rng.chance(1, 2) { *i } else { *ctx.rng.pick(UNLINK_IDS) }) }
+        Op::Monitor(f, t, r) => { let (f2, t2) = (pid(ctx, f), pid(ctx, t)); let r2 = if ctx.rng.chance(1, 2) { reform_ref(ctx, r) } else { r.clone() }; Op::Monitor(f2, t2, r2) }
+        Op::Demonitor(f, t, r) => { let (f2, t2) = (pid(ctx, f), pid(ctx, t)); let r2 = if ctx.rng.chance(1, 2) { reform_ref(ctx, r) } else { r.clone() }; Op::Demonitor(f2, t2, r2) }
+    }
+}
+
+/// The identifiers an operation hands to the library, in the order in which the protocol's control tuple carries them,
+/// each with the node-local bytes it was received with (`None`: plain form).
+fn op_identifiers(op: &Op) -> Vec<(String, Option<Vec<u8>>)> {
+    let p = |x: &ExternalPid| (pid_text(&ExternalPid::new(x.node.clone(), x.id, x.serial, x.creation)), x.local_ext_bytes.as_ref().map(|b| b.to_vec()));
+    let rf = |x: &ExternalReference| (ref_text(&ExternalReference::new(x.node.clone(), x.creation, x.ids.clone())), x.local_ext_bytes.as_ref().map(|b| b.to_vec()));
+    match op {
+        Op::Send(_, t, _) => vec![p(t)],
+        Op::RegSend(f, _, _) => vec![p(f)],
+        Op::Link(f, t) | Op::Unlink(f, t, _) => vec![p(f), p(t)],
+        Op::Monitor(f, t, r) | Op::Demonitor(f, t, r) => vec![p(f), p(t), rf(r)],
+    }
+}
+
+/// the identifiers of the control tuple actually written (read back with the library's decoder, which keeps the node-local
+/// bytes it reads: property C10), top-level elements only
+fn wire_identifiers(header: bool, wire: &[u8]) -> Option<Vec<(String, Option<Vec<u8>>)>> {
+    if wire.len() < 6 {
+        return None;
+    }
+    let control = if header {
+        erltf::decode_with_atom_cache(&wire[4..], &mut erltf::decoder::AtomCache::new()).ok()?.0
+    } else {
+        erltf::decoder::decode_with_trailing(&wire[5..]).ok()?.0
+    };
+    let OwnedTerm::Tuple(els) = control else { return None };
+    Some(els.iter().filter_map(|e| match e {
+        OwnedTerm::Pid(x) => Some((pid_text(&ExternalPid::new(x.node.clone(), x.id, x.serial, x.creation)), x.local_ext_bytes.as_ref().map(|b| b.to_vec()))),
+        OwnedTerm::Reference(x) => Some((ref_text(&ExternalReference::new(x.node.clone(), x.creation, x.ids.clone())), x.local_ext_bytes.as_ref().map(|b| b.to_vec()))),
+        _ => None,
+    }).collect())
+}
+
 fn err_class(e: &edp_client::Error) -> String {
     match e {
         edp_client::Error::InvalidState { .. } => "err:state".to_string(),
@@ -268,9 +355,15 @@ async fn part_a(ctx: &mut Ctx, epmd: &FakeEpmd, case: &mut usize) {
             ctx.fail("c07-setup", &format!("mode={} negotiated flags {}", mode, neg));
             continue;
         }
-        let n = ctx.n(200, 2500);
+        let n = ctx.n(260, 2500);
+        let mut prev: Option<Op> = None;
         for i in 0..n {
-            let op = gen_op(ctx, &cfg);
+            // a third of the operations are variants of the one before (same kind, `==` arguments in another form, …)
+            let op = match &prev {
+                Some(p) if ctx.rng.chance(1, 3) => variant_of(ctx, p, &cfg),
+                _ => gen_op(ctx, &cfg),
+            };
+            prev = Some(op.clone());
             let sentinel = ctx.rng.bytes(16);
             HOOK_HITS.store(0, Ordering::SeqCst);
             let ot = op.text();
@@ -310,6 +403,19 @@ async fn part_a(ctx: &mut Ctx, epmd: &FakeEpmd, case: &mut usize) {
                 Err(e) => err_class(e),
             };
             ctx.tie("gen", &format!("c07send connected {} 1 {} {}", neg, order, ot), &impl_res);
+            if r.is_ok() {
+                // the control tuple carries each identifier in the very form it was given in (node-local bytes verbatim,
+                // plain stays plain): the frame denotes the same tuple either way, but only these bytes are the peer's own
+                let want = op_identifiers(&op);
+                if want.iter().any(|w| w.1.is_some()) {
+                    ctx.count("identifier_form_checked_node_local");
+                }
+                match wire_identifiers(header, &wire) {
+                    Some(got) if got == want => {}
+                    got => ctx.fail("c07-identifier-form", &format!("mode={} op={} wire={} identifiers-on-the-wire={:?}", mode, &ot[..ot.len().min(600)], hex(&wire[..wire.len().min(400)]),
+                        got.map(|g| g.into_iter().map(|(t, b)| format!("{}/{}", t, b.map(|b| hex(&b)).unwrap_or("plain".into()))).collect::<Vec<_>>()))),
+                }
+            }
             match &r {
                 Ok(()) => ctx.prop("gen", &format!("c07read {} {} {}", mode, hexarg(&wire), ot), "ok"),
                 Err(_) => ctx.prop("gen", &format!("c07none {}", hexarg(&wire)), "ok"),
@@ -491,7 +597,13 @@ async fn part_c(ctx: &mut Ctx, epmd: &FakeEpmd, case: &mut usize) {
             let mut monitors = 0usize;
             for s in 0..m {
                 let from = local((t * 1000 + s) as u32, gen_u32(&mut ctx.rng) >> 4);
-                let to = if ctx.rng.chance(1, 4) {
+                let to = if ctx.rng.chance(1, 3) {
+                    // one of two peer pids that all tasks address, each time in another form (plain, node-local with
+                    // fresh preserved bytes): frames of different tasks then carry `==` control tuples with different bytes
+                    ctx.count("node_op_shared_target");
+                    let p = remote(7 + ctx.rng.below(2) as u32, 3);
+                    if ctx.rng.chance(1, 3) { p } else { reform_pid(ctx, &p) }
+                } else if ctx.rng.chance(1, 4) {
                     // node-local form of a pid of the peer node
                     let p = remote(gen_u32(&mut ctx.rng), gen_u32(&mut ctx.rng));
                     let enc = erltf::encode(&OwnedTerm::Pid(p.clone())).unwrap();
